@@ -108,7 +108,17 @@ def tree_make(rng, sid):
         s.meta.update({"bad_path": f[0], "kind": kind, "line": nl + 1})
     t.emit(s)
     s.add("LOGOPEN", 1)
-    gen_tree.emit_read(s, p, 0)
+    cb = None
+    if rng.random() < 0.25:
+        # the caller's check callback reads files of its own through the library while it is being asked (and accepts):
+        # the error location must still name the malformed file of the outer read
+        s.file(b"/policy/allow.conf", b"allow=yes\n")
+        s.file(b"/policy/usr/allow.list", b"user root\n")
+        cb = "cb:nest:" + h(b"/policy/allow.conf")
+        # (the error location after a read that succeeds is not specified and depends on what the callback read last; the
+        # model's callback is a pure function, so these scenarios are judged by the oracle on the implementation only)
+        s.meta["impl_only"] = True
+    gen_tree.emit_read(s, p, 0, cb=cb)
     s.add("RAW", 0)
     s.add("ERRLOC")
     s.add("FREE", 0)
